@@ -122,6 +122,7 @@ int __wrap_close(int fd) {
     }
     int k = fd_index(fd);
     if (k >= 0) { printf("close fd:%d\n", k); FDR[k] = -1; }
+    else if (fd >= 0 && fcntl(fd, F_GETFD) == -1) printf("close BADFD\n");   /* not an open descriptor: closed twice, or a stale number */
     return __real_close(fd);
 }
 
